@@ -491,7 +491,12 @@ func runScenario(cs *fw.Case, sc scenario) {
 	switch {
 	case p != nil && p.Budget:
 		cs.Cover("outcome:no-return:" + sc.Routine)
-		cs.Violation(fmt.Sprintf("C20|no-return|%s|%s|%s|%s", sc.Routine, foldOpts(sc.Opts), foldObj(sc.Obj), p.Site),
+		fo, ob := foldOpts(sc.Opts), foldObj(sc.Obj)
+		if fo != "admissible-options" {
+			ob = "any-objective" // the inadmissible option value alone decides
+		}
+		// the loop that happens to exhaust the shared budget is not stable, so it is not part of the signature
+		cs.Violation(fmt.Sprintf("C20|no-return|%s|%s|%s|loop-budget-exceeded", sc.Routine, fo, ob),
 			fmt.Sprintf("%s(%s) on objective class %q did not return, fail or panic within %d loop iterations; iterations by site: %v; objective evaluations: %d",
 				sc.Routine, sc.Opts, sc.Obj, bud, used, o.evals), w)
 	case p != nil:
